@@ -156,7 +156,7 @@ class Monitor:
         self.calls_seen += 1
         self.bad.append({
             "kind": "called",
-            "key": (f"method-called:{kind}@{self.innermost_liquid2(frame)}" if kind.startswith("dict.")
+            "key": (f"method-called:{kind}@{self.innermost_liquid2(frame)}" if kind.startswith(("dict.", "async."))
                     else f"callable-item-called:{kind}@{self.innermost_liquid2(frame)}"),
             "callable": kind,
             "caller": self.modfunc(frame.f_code) or f"{os.path.basename(frame.f_code.co_filename)}:{frame.f_code.co_name}",
@@ -327,7 +327,32 @@ def _hidden_ns(shape: str) -> dict[str, Any]:
     def __str__(self) -> str:
         return f"PUBSTR_{shape.upper()}_{object.__getattribute__(self, 'idx')}"
 
+    # async dunder protocol: NOT part of the documented drop protocol (only __getitem_async__
+    # is).  Special-method lookups bypass __getattribute__, so these are tripwires: they record
+    # being entered and hand out canaries.
+    def __aiter__(self):  # noqa: ANN202
+        MON.called("async.__aiter__", _get(1))
+        return _AsyncRows(shape)
+
+    def __anext__(self):  # noqa: ANN202
+        MON.called("async.__anext__", _get(1))
+        return _AsyncRows(shape).__anext__()
+
+    def __await__(self):  # noqa: ANN202
+        MON.called("async.__await__", _get(1))
+        return _await_result(shape)
+
+    def __aenter__(self):  # noqa: ANN202
+        MON.called("async.__aenter__", _get(1))
+        return _coro_result(shape)
+
+    def __aexit__(self, *a: Any):  # noqa: ANN202
+        MON.called("async.__aexit__", _get(1))
+        return _coro_result(shape)
+
     return {
+        "__aiter__": __aiter__, "__anext__": __anext__, "__await__": __await__,
+        "__aenter__": __aenter__, "__aexit__": __aexit__,
         "__init__": __init__,
         "_setup": _setup,
         "__getattribute__": __getattribute__,
@@ -343,6 +368,33 @@ def _hidden_ns(shape: str) -> dict[str, Any]:
         "smeth": staticmethod(lambda *a: _canary("methodresult", "smeth", shape)),
         "cmeth": classmethod(lambda cls, *a: _canary("methodresult", "cmeth", shape)),
     }
+
+
+class _AsyncRows:
+    """What a hostile drop would hand out through `async for`: its internal rows."""
+
+    def __init__(self, shape: str) -> None:
+        self.shape = shape
+        self.i = 0
+
+    def __aiter__(self):  # noqa: ANN204
+        return self
+
+    async def __anext__(self) -> Any:
+        if self.i >= 2:
+            raise StopAsyncIteration
+        self.i += 1
+        return _canary("asyncrow", f"row{self.i}", self.shape)
+
+
+def _await_result(shape: str):  # noqa: ANN202
+    if False:  # noqa: SIM108
+        yield None
+    return _canary("awaitresult", "value", shape)
+
+
+async def _coro_result(shape: str) -> str:
+    return _canary("awaitresult", "ctx", shape)
 
 
 CLASSES: dict[str, type] = {}
@@ -786,12 +838,43 @@ DictPartial = _make("dictpartial", (dict,), {
     "__str__": dict.__repr__,   # i.e. what str() gives when the host did not define __str__
 })
 
+# ---------------------------------------------------------------------------------------
+# Sized / Sequence / Mapping objects with boundary lengths, carrying properties named like the
+# attributes of range / slice / list / numbers (a fallback written for one builtin type must not
+# duck-type its way into a drop).  The getters return a recognisable number (77000xx77).
+# ---------------------------------------------------------------------------------------
+import sys as _sys  # noqa: E402
+
+TRIPWIRE_PROPS = ("start", "stop", "step", "index", "count", "real", "imag", "numerator",
+                  "denominator", "length", "maxlen", "itemsize", "ndim", "shape")
+
+
+def _tripwires() -> dict[str, Any]:
+    return {nm: property(lambda self, _i=i: 7700000 + _i * 100 + 77) for i, nm in enumerate(TRIPWIRE_PROPS)}
+
+
+def _len_fn(kind: str):  # noqa: ANN202
+    val = {"0": 0, "1": 1, "max": _sys.maxsize, "over": _sys.maxsize + 1, "neg": -1}[kind]
+    return lambda self: val
+
+
+for _k in ("0", "1", "max", "over", "neg"):
+    _make(f"sized{_k}", (), {**_tripwires(), "__len__": _len_fn(_k)})
+
+_make("seqover", (Sequence,), {**_tripwires(), "_setup": _seq_setup, "__getitem__": _seq_getitem,
+                                "__len__": _len_fn("over")})
+_make("seqmax", (Sequence,), {**_tripwires(), "_setup": _seq_setup, "__getitem__": _seq_getitem,
+                               "__len__": _len_fn("max")})
+_make("mapover", (Mapping,), {**_tripwires(), **_MAP_NS, "__len__": _len_fn("over")})
+_make("mapneg", (Mapping,), {**_tripwires(), **_MAP_NS, "__len__": _len_fn("neg")})
+
 SPY_SHAPES = [
     "plain", "callprop", "mapping", "sequence", "raiser_key", "raiser_type", "raiser_index",
     "raiser_attr", "raiser_value", "liquid", "html", "asyncdrop", "magic", "iterable",
     "forcedefault", "dictdrop", "dictget", "listdrop", "strsub",
     "ntuple", "typednt", "ntuplesub", "tuplesub", "dc_plain", "dc_frozen", "dc_slots", "enum",
     "simplens", "userdict", "userlist", "userstring", "dictpartial",
+    "sized0", "sized1", "sizedmax", "sizedover", "sizedneg", "seqover", "seqmax", "mapover", "mapneg",
 ]
 
 # what each spy shape legitimately shows for a *string key* (relation check is skipped for
@@ -808,6 +891,8 @@ VISIBLE["userdict"] = frozenset(EXPOSED_KEYS)
 VISIBLE["userlist"] = frozenset(EXPOSED_KEYS)
 for _s in ("ntuple", "typednt", "ntuplesub", "tuplesub"):
     VISIBLE[_s] = frozenset(EXPOSED_KEYS)          # one of the tuple's ITEMS is a mapping drop
+for _s in ("seqover", "seqmax", "mapover", "mapneg"):
+    VISIBLE[_s] = frozenset(EXPOSED_KEYS)
 VISIBLE["dictpartial"] = frozenset(("title", "n", "other", "internal_note"))
 
 
